@@ -60,7 +60,7 @@ class SpecCtx:
 
 
 def check_function(I, target, build, spec, F, name, result_name="result", state_names=None,
-                   drop_contracts=(), merge_defs=True):
+                   drop_contracts=(), merge_defs=True, structural=True):
     """target: qualname of a function/method in the repo or a callable thunk
     taking the built inputs.  build() -> (args list, kwargs dict) of fresh
     symbolic inputs (called several times; must be deterministic).
@@ -154,7 +154,7 @@ def check_function(I, target, build, spec, F, name, result_name="result", state_
         if payload[0] == "ok":
             finals.append(payload[2])
             finals.append(list(payload[1][0]) + list(payload[1][1].values()))
-    V.check_sides(log, F, name, out, final_values=finals)
+    V.check_sides(log, F, name, out, final_values=finals if structural else None)
     if merge_defs:
         out = V.merge_def(out, name)
     return out
@@ -189,7 +189,12 @@ def as_contract(spec, pre=None):
     """turn a specification into a call-site contract for the interpreter"""
     def apply(I, args, kwargs):
         ctx = CallCtx(I)
-        return spec(ctx, *args, **kwargs)
+        saved = T.SIDE
+        T.SIDE = None      # definedness inside the callee is the callee's own obligation
+        try:
+            return spec(ctx, *args, **kwargs)
+        finally:
+            T.SIDE = saved
     return apply
 
 
